@@ -7,6 +7,9 @@ _processCfg, _interfaceThread, restart(), shutdown(), real TCPServer.__init__ / 
 Real threads, no sleeps for synchronisation (events with generous time-outs only to detect a hang).
 Schedule control over the start of a responder thread: it can be held before its first statement ('start') or
 inside its first sendto ('send') until the harness releases it - restart / shutdown can be issued in between.
+Tear-down is observed step by step: the close of the responder's socket and the return of every interface's
+shutdown() inside Server.restart() / Server.shutdown() are scheduling points at which a broadcast request is injected
+(the next generation is kept from starting until restart() has returned).
 """
 import errno
 import os
@@ -78,6 +81,9 @@ class ThreadedUDP:
         if not self.closed:
             self.closed = True
             self.q.put(None)
+            w = CUR[0]
+            if w is not None and w.tearing_down():
+                w.step('stop_responder', 0)
 
 
 class FakeWS:
@@ -89,8 +95,12 @@ class FakeWS:
         self._stop.wait()
 
     def shutdown(self):
+        first = not self._stop.is_set()
         self._stop.set()
-        CUR[0].ws_listening.discard(self.port)
+        w = CUR[0]
+        w.ws_listening.discard(self.port)
+        if first and w.tearing_down():
+            w.step('close_iface', self.port)
 
 
 _patched = []
@@ -113,13 +123,21 @@ def _patch():
         self._stop = threading.Event()
         if not w.comes_up(port):
             raise OSError(errno.EACCES, 'Permission denied')     # (EADDRINUSE would be retried for 9 s)
+        w.in_order(port)
         w.listening.add(port)
 
     def serve_forever(self, poll_interval=0.5):
         self._stop.wait()
 
-    def shutdown(self):
+    def shutdown(self):      # like socketserver: returns when serve_forever has ended (and, here, the port is free)
+        first = not self._stop.is_set()
         self._stop.set()
+        w = CUR[0]
+        if first and w.tearing_down():
+            t0 = time.time()
+            while self._port in w.listening and time.time() - t0 < WAIT:
+                time.sleep(0.0005)
+            w.step('close_iface', self._port)
 
     def server_close(self):
         CUR[0].listening.discard(self._port)
@@ -132,6 +150,7 @@ def _patch():
         w = CUR[0]
         if not w.comes_up(port):
             raise OSError(errno.EACCES, 'Permission denied')
+        w.in_order(port)
         w.ws_listening.add(port)
         return FakeWS(port)
     W.serve = serve
@@ -168,6 +187,10 @@ class World:
         self.listening = set()
         self.ws_listening = set()
         self.gen = 0
+        self.gate = threading.Event()
+        self.gate.set()
+        self.teardown_thread = None
+        self.steps = []                     # tear-down steps of the current restart / shutdown
         self.next_hold = ''
         self.error = ''
         rot = cfg.get('salt', 0) % len(PORTS)
@@ -192,6 +215,7 @@ class World:
 
         class Srv(S.Server):
             def restart_hook(self):         # a restarted node may describe itself differently (router)
+                world.gate.wait(WAIT)       # the next generation starts when restart() has returned
                 self.node_cfg['description'] = world.descr(world.gen + 1)
 
         from .props.c19 import Log
@@ -254,15 +278,44 @@ class World:
         self.thread.start()
         return self._wait_up(0)
 
+    def tearing_down(self):
+        return self.teardown_thread is threading.current_thread()
+
+    def step(self, kind, port):
+        """scheduling point inside Server.restart() / shutdown(): a request arrives now"""
+        probed = not self.pending()
+        self.steps.append({'kind': kind, 'port': port, 'listening': sorted(self.listening), 'probed': probed,
+                           'msgs': self.probe() if probed else []})
+
+    def in_order(self, port):
+        """interfaces register with the server in configuration order (they are torn down in that order)"""
+        now = [p for p in self.ports if self.comes_up(p)]
+        need = now.index(port) if port in now else 0
+        t0 = time.time()
+        while len(self.srv.interfaces) < need and time.time() - t0 < 5:
+            time.sleep(0.0005)
+
+    def _teardown(self, call):
+        self.steps = []
+        self.teardown_thread = threading.current_thread()
+        try:
+            call()
+        finally:
+            self.teardown_thread = None
+
     def restart(self, hold=''):
         self.next_hold = hold
         n = len(self.sockets)
-        self.starts += 1
-        self.srv.restart()
+        self.gate.clear()
+        try:
+            self._teardown(self.srv.restart)
+        finally:
+            self.starts += 1
+            self.gate.set()
         return self._wait_up(n)
 
     def shutdown(self):
-        self.srv.shutdown()
+        self._teardown(self.srv.shutdown)
         self.thread.join(WAIT)
         if self.thread.is_alive():
             self.error = self.error or 'hang in shutdown'
@@ -292,6 +345,7 @@ class World:
 
     def close(self):
         try:
+            self.gate.set()
             if self.thread is not None and self.thread.is_alive():
                 self.srv.shutdown()
                 self.thread.join(WAIT)
